@@ -935,18 +935,10 @@ func (c *callable) Value(env *env) reflect.Value {
 		err := nvm.runFunc(fn, vars)
 		if err != nil {
 			if p, ok := err.(*PanicError); ok {
-				var msg string
-				for ; p != nil; p = p.next {
-					msg = "\n" + msg
-					if p.recovered {
-						msg = " [recovered]" + msg
-					}
-					msg = p.String() + msg
-					if p.next != nil {
-						msg = "\tpanic: " + msg
-					}
-				}
-				err = &fatalError{msg: msg}
+				// The called function has not recovered the panic: propagate
+				// it to the caller, that can be Scriggo code calling a
+				// function value, so that it can recover it or return it.
+				panic(p.message)
 			}
 			panic(err)
 		}
